@@ -167,6 +167,18 @@ EmbedLaw == \A pad \in 1..3 :
    \A k \in 1..row.m, x \in 1..row.n :
       SameRoot(Textbook(row, dir)[k][x], LOf(row), Textbook(c2, dir)[k][x + Off(row.n, row.n + pad)], LOf(c2))
 
+\* C05: to-mask-and-back is  T^H diag(mask) T.  With an all-pass mask on the whole band it is the identity
+\*      (UnitaryLaw, including the shifted kernel: the return trip is the ADJOINT of the trip out, i.e. it uses the
+\*      same shift in samples), and it is additive in the mask: the samples passed by a mask and by its complement
+\*      partition the band, so their Gram contributions add up to the unmasked one (Babinet).
+MaskLaw == \A pass \in SUBSET (1..row.m) :
+   LET L  == LOf(row)
+       tb == Textbook(row, dir)
+       G(S, x1, x2) == CountVec([k \in S |-> Mod(tb[k][x1] - tb[k][x2], L)], L) IN
+   \A x1, x2 \in 1..row.n :
+      LET a == G(pass, x1, x2)  b == G((1..row.m) \ pass, x1, x2)  c == G(1..row.m, x1, x2) IN
+      [e \in 0..(L - 1) |-> a[e] + b[e]] = c
+
 \* C05: transposition -- swapping the axes swaps every per-axis public argument
 TransposeLaw == /\ Args(col, row).Q = SwapT(Args(row, col).Q)
                 /\ Args(col, row).out = SwapT(Args(row, col).out)
